@@ -317,7 +317,7 @@ def check_sweep(cname, rP, fam, w, lo, hi, seeds, acc, pidx=0):
 # operator histories on one mutable point
 # ---------------------------------------------------------------------------
 def hist_ops(cname, alpha, reduced=False):
-    """-> list of (label, op); op = ('dbl',) | ('iadd', recipe) | ('iadd_self',) | ('imul', k) | ('neg',) | ('cp',)"""
+    """-> list of (label, op); op = ('dbl',) | ('iadd', recipe) | ('iadd_self',) | ('imul', k) | ('neg',) | ('cp',) | ('read',) | ('set', recipe)"""
     c = R.CURVES[cname]
     n = c.order
     byl = {a[0]: a[1] for a in alpha}
@@ -325,14 +325,16 @@ def hist_ops(cname, alpha, reduced=False):
            ("+= O", ("iadd", ("O",))), ("+= W1", ("iadd", byl["W1"])), ("+= W0+W1[z!=1]", ("iadd", byl["W0+W1"])),
            ("*= 0", ("imul", 0)), ("*= 1", ("imul", 1)), ("*= 2", ("imul", 2)), ("*= 3", ("imul", 3)),
            ("*= n-1", ("imul", n - 1)), ("*= n", ("imul", n)), ("*= n+1", ("imul", n + 1)),
-           ("*= 2^(bits+9)+5", ("imul", (1 << (c.bits + 9)) + 5)), ("P = -P", ("neg",)), ("P = P.copy()", ("cp",))]
+           ("*= 2^(bits+9)+5", ("imul", (1 << (c.bits + 9)) + 5)), ("P = -P", ("neg",)), ("P = P.copy()", ("cp",)),
+           # coordinates read (anything the object may cache from them must follow later changes), the object re-targeted with set()
+           ("P.xy", ("read",)), ("P.set(W1)", ("set", byl["W1"])), ("P.set(O)", ("set", ("O",)))]
     if cname in H.EDW:
         t2 = [a for a in alpha if a[0].startswith("T2")][0]
         th = [a for a in alpha if a[0].startswith("T%d[1]" % c.cofactor)][0]
         ops += [("+= T2", ("iadd", t2[1])), ("+= T%d" % c.cofactor, ("iadd", th[1])), ("*= h", ("imul", c.cofactor))]
     if reduced:
         keep = {"double()", "+= G", "+= self", "+= -G", "+= O", "+= W0+W1[z!=1]", "*= 0", "*= 2", "*= n-1", "*= n+1", "*= 2^(bits+9)+5",
-                "P = -P", "+= T2", "*= h"}
+                "P = -P", "+= T2", "*= h", "P.xy", "P.set(W1)"}
         ops = [o for o in ops if o[0] in keep]
     return ops
 
@@ -378,6 +380,14 @@ def run_history(cname, start, ops, acc, final=None, size=None, check_all=False):
             elif o[0] == "cp":
                 descr.append("P = P.copy()")
                 P = P.copy()
+            elif o[0] == "read":
+                descr.append("P.xy")
+                _ = P.xy
+                _ = P.is_point_at_infinity()
+            elif o[0] == "set":
+                descr.append("P.set(%s)" % rstr(cname, tuple(o[1])))
+                P.set(build(cname, H.tup(o[1])))
+                A = ref_eval(cname, H.tup(o[1]))
             else:
                 raise RuntimeError("harness: unknown history op %r" % (o,))
         except ValueError as e:
